@@ -80,3 +80,45 @@ func upperBoundsOnPath(info *types.Info, body ast.Node, g *core.Graph, path []in
 	}
 	return out
 }
+
+// nonEmptyFacts: the slices X for which the branch outcome implies len(X) >= 1: `len(X) > 0`, `len(X) != 0`,
+// `len(X) >= 1`, `0 < len(X)` taken true; `len(X) == 0`, `len(X) < 1`, `len(X) <= 0` taken false; through negations
+// and the conjunct / disjunct decomposition of atomsOf. Returned are the renderings of X.
+func nonEmptyFacts(info *types.Info, cond ast.Expr, taken bool) []string {
+	var out []string
+	atoms, truths := atomsOf(cond, taken)
+	for i, a := range atoms {
+		b, ok := a.(*ast.BinaryExpr)
+		if !ok {
+			continue
+		}
+		x, y, op := b.X, b.Y, b.Op
+		if _, isConst := core.ConstInt(info, x); isConst {
+			x, y = y, x
+			op = map[token.Token]token.Token{token.LSS: token.GTR, token.GTR: token.LSS, token.LEQ: token.GEQ, token.GEQ: token.LEQ, token.EQL: token.EQL, token.NEQ: token.NEQ}[op]
+		}
+		k, isConst := core.ConstInt(info, y)
+		c, isCall := ast.Unparen(x).(*ast.CallExpr)
+		if !isConst || !isCall || core.CallName(info, c) != "builtin.len" || len(c.Args) != 1 {
+			continue
+		}
+		if !truths[i] {
+			op = map[token.Token]token.Token{token.LSS: token.GEQ, token.GTR: token.LEQ, token.LEQ: token.GTR, token.GEQ: token.LSS, token.EQL: token.NEQ, token.NEQ: token.EQL}[op]
+		}
+		implies := false
+		switch op {
+		case token.GTR:
+			implies = k >= 0
+		case token.GEQ:
+			implies = k >= 1
+		case token.NEQ:
+			implies = k == 0
+		case token.EQL:
+			implies = k >= 1
+		}
+		if implies {
+			out = append(out, core.Str(c.Args[0]))
+		}
+	}
+	return out
+}
